@@ -107,4 +107,6 @@ def only_pushes(path, target="diagnostics"):
         if e[0] in ("next", "next_end", "iterate", "iterate_end"):
             continue
         other.append(e)
+    from absint import iteration_problems
+    other += [("early-exit", x) for x in iteration_problems(path)]
     return other
